@@ -4,6 +4,7 @@ import NxProofs.RefineSend
 import NxProofs.Sys
 import NxProofs.Duplex
 import NxProofs.HandshakeServer
+import NxProofs.HandshakeClient
 import NxProofs.Liveness
 import NxProofs.Unreliable
 import NxProps.C04
@@ -578,15 +579,17 @@ example :
 
 /-! ## from the handshake to `Established`
 
-The full statement one wants: *for every environment, every client and server configuration and every credential, if the four-packet
-handshake of the model completes (`handshakeRun … = some (c, cs)` and its generalisation to arbitrary parameters), then `c` and `cs` are
-`Established` towards each other on every negotiated substream.* It is checked by the kernel on closed configurations
-(`handshakeRun` above) and, on every run of the checks, by the L1 driver on the two model endpoints after every replayed REAL
-handshake (`est`, about 900 handshakes per quick run across the negotiation grid, v0 / v1, with and without credentials) — but it is
-proved only in part: the SERVER's half holds for every configuration (`server_half_after_connect`), the CLIENT's half
-(`ClientReady`: what `handshake()`, `process_syn` and `process_connect` leave in the client object) is a hypothesis of
-`handshake_leaves_established_partial`, as is the equality of the substream keys (with credentials that is the ticket's session key
-reaching both ends: C05 / C16). -/
+*For every environment, every client and server configuration, every credential and every pair of packets the client is handed: if
+the client is CONNECTED after `handshake()`, a SYN packet, a CONNECT packet and the resumption of `handshake()`, and the server
+registered a connection for the client's CONNECT, then the two are `Established` towards each other on every substream the
+settings allow* — `handshake_leaves_established`, from the server's half (`server_half_after_connect`: what `process_connect`
+registers) and the client's half (`client_half_after_handshake`: `handshake()`, `process_syn`, `process_connect` never touch the
+receiver role or the ciphers, and the send counter of substream 0 moves from 1 to 2 exactly when the SYN/ACK is accepted). The one
+hypothesis left is that the two ends hold equal substream keys and cipher setting: without credentials both hold the default key;
+with credentials it is the ticket's session key reaching both ends (C05 / C16). Besides the theorem, the kernel checks closed
+configurations (`handshakeRun`) and the L1 driver evaluates `establishedB` on the model endpoints after every replayed REAL
+handshake (`est`). Not covered by the theorem: retransmitted SYN / CONNECT packets and duplicate answers (the straight-line
+handshake only; the probe and the replays see the others). -/
 
 open Nx.L1 Nx.Prudp in
 /-- **the server's half, for every configuration**: the connection object `process_connect` registers for a CONNECT from a peer it
@@ -600,16 +603,34 @@ theorem server_half_after_connect (env : Env) (now : Time) (rnd : Rnd) (up : Boo
   server_half_established env now rnd up s p addr hnew cs hreg sub hsub
 
 open Nx.L1 Nx.Prudp in
-/-- (partial — see the section comment) a ready client and the connection the server registered for its CONNECT, with equal
-    substream keys and cipher setting, are `Established` in both directions; hence (`C01_duplex_established`) every duplex theorem
-    applies from there -/
-theorem handshake_leaves_established_partial (env : Env) (now : Time) (rnd : Rnd) (s : ServerStream) (p : Packet) (addr : Addr)
-    (hnew : clientLookup (addr, p.sourcePort, p.sourceType) s.clients = none) (c cs : Conn)
-    (hreg : clientLookup (addr, p.sourcePort, p.sourceType) (s.processConnect env now rnd true p addr).s.clients = some cs)
-    (sub : Nat) (hsub : sub ≤ env.s.maxSubstreamId) (hc : ClientReady c sub)
-    (hk : (c.relCiphers[sub]?).map StreamCipher.key = (cs.relCiphers[sub]?).map StreamCipher.key) (hon : cs.cipherOn = c.cipherOn) :
-    Established sub (if sub = 0 then 2 else 1) c cs ∧ Established sub 1 cs c :=
-  established_of_halves sub c cs hc (server_half_established env now rnd true s p addr hnew cs hreg sub hsub) hk hon
+/-- **the client's half, for every configuration**: a new client object, `handshake()`, a SYN packet handled, a CONNECT packet
+    handled, `handshake()` resumed — if the client is CONNECTED after that, then on every substream the settings allow its send counter
+    is 2 (substream 0) or 1, its receive window is empty at 1, queue and fragment buffer are empty, it is open on a live link, both
+    cipher positions are 0 and its pending retransmission timers hold handshake packets only -/
+theorem client_half_after_handshake (env : Env) (version : Option Nat) (u chk sid : Nat) (la : Addr) (lp lt : Nat) (ra : Addr) (rp rt : Nat)
+    (t0 t1 t2 t3 : Time) (creds : Option Creds) (synAck conAck : Packet) (hs : synAck.type = TYPE_SYN) (hc : conAck.type = TYPE_CONNECT)
+    (sub : Nat) (hsub : sub ≤ env.s.maxSubstreamId) :
+    let c4 := ((((Conn.new env version u chk sid la lp lt ra rp rt).handshake env t0 creds).c.handle env t1 synAck).c.handle env t2 conAck).c.resumeHandshake t3 |>.c
+    c4.state = STATE_CONNECTED → ClientReady c4 sub :=
+  client_half_established env version u chk sid la lp lt ra rp rt t0 t1 t2 t3 creds synAck conAck hs hc sub hsub
+
+open Nx.L1 Nx.Prudp in
+/-- **the handshake leaves the two endpoints `Established` in both directions** (hence, by `C01_duplex_established`, every duplex
+    theorem applies to what follows) -/
+theorem handshake_leaves_established (envC envS : Env) (version : Option Nat) (u chk sid : Nat) (la : Addr) (lp lt : Nat) (ra : Addr) (rp rt : Nat)
+    (t0 t1 t2 t3 : Time) (creds : Option Creds) (synAck conAck : Packet) (hs : synAck.type = TYPE_SYN) (hc : conAck.type = TYPE_CONNECT)
+    (now : Time) (rnd : Rnd) (s : ServerStream) (con : Packet) (addr : Addr)
+    (hnew : clientLookup (addr, con.sourcePort, con.sourceType) s.clients = none) (cs : Conn)
+    (hreg : clientLookup (addr, con.sourcePort, con.sourceType) (s.processConnect envS now rnd true con addr).s.clients = some cs)
+    (sub : Nat) (hsubC : sub ≤ envC.s.maxSubstreamId) (hsubS : sub ≤ envS.s.maxSubstreamId) :
+    let c4 := ((((Conn.new envC version u chk sid la lp lt ra rp rt).handshake envC t0 creds).c.handle envC t1 synAck).c.handle envC t2 conAck).c.resumeHandshake t3 |>.c
+    c4.state = STATE_CONNECTED →
+    (c4.relCiphers[sub]?).map StreamCipher.key = (cs.relCiphers[sub]?).map StreamCipher.key → cs.cipherOn = c4.cipherOn →
+    Established sub (if sub = 0 then 2 else 1) c4 cs ∧ Established sub 1 cs c4 := by
+  intro c4 hconn hk hon
+  exact established_of_halves sub c4 cs
+    (client_half_established envC version u chk sid la lp lt ra rp rt t0 t1 t2 t3 creds synAck conAck hs hc sub hsubC hconn)
+    (server_half_established envS now rnd true s con addr hnew cs hreg sub hsubS) hk hon
 
 /-! non-vacuity of `ClientReady`: the client the modelled handshake produces has every field of it (substreams 0 and 1) -/
 open Nx.L1 Nx.Prudp in
